@@ -148,6 +148,19 @@ func (e *Engine) header(st *symtab) string {
 	if st.ufs["FLen"] {
 		sb.WriteString("(assert (forall ((r Int)) (! (>= (FLen r) 0) :pattern ((FLen r)))))\n")
 	}
+	// embedded struct objects: emb$T$f(x) is the object stored in field f of x: non-nil, injective,
+	// as old as its container
+	for _, n := range sortedKeys(st.ufs) {
+		if strings.HasPrefix(n, "emb$") {
+			id := smtIdent(n)
+			inv := smtIdent(n + "$inv")
+			fmt.Fprintf(&sb, "(declare-fun %s (Int) Int)\n", inv)
+			fmt.Fprintf(&sb, "(assert (forall ((x Int)) (! (and (= (%s (%s x)) x) (=> (> x 0) (> (%s x) 0))) :pattern ((%s x)))))\n", inv, id, id, id)
+			if _, ok := st.vars["top0"]; ok {
+				fmt.Fprintf(&sb, "(assert (forall ((x Int)) (! (= (> (%s x) top0) (> x top0)) :pattern ((%s x)))))\n", id, id)
+			}
+		}
+	}
 	// sentinel globals: non-nil, pairwise distinct
 	var sent []string
 	for _, n := range sortedKeys(st.ufs) {
